@@ -1985,7 +1985,20 @@ namespace adept {
       else {
 	data_vol = size();
       }
-      storage_ = new Storage<Type>(data_vol, IsActive);
+      try {
+	storage_ = new Storage<Type>(data_vol, IsActive);
+      }
+      catch (...) {
+	// The old data have been released and the new ones could not
+	// be allocated (std::bad_alloc): leave the array empty rather
+	// than with its new dimensions and a pointer to the data it no
+	// longer holds
+	data_ = 0;
+	dimensions_.set_all(0);
+	offset_.set_all(0);
+	internal::GradientIndex<IsActive>::clear();
+	throw;
+      }
       data_ = storage_->data();
       internal::GradientIndex<IsActive>::set(data_, storage_);
     }
